@@ -218,7 +218,7 @@ def finish(ctx, level, technique_note, assumptions, extra_cov=None):
             if v['sig'] in seen: continue
             seen.add(v['sig'])
             p = write_replay(ctx, dict(kind='violation', **v))
-            print(f'VIOLATION property={ctx.pid} replay={p}')
+            if len(seen) <= 5: print(f'VIOLATION property={ctx.pid} replay={p}')
         code = 1
     elif ctx.broken:
         p = write_replay(ctx, dict(kind='broken-obligation', theorem_or_correspondence=ctx.broken,
